@@ -5,7 +5,7 @@
 //!   `C20 multi H=<m>:<h>,… D=<m>.<n>,… R=<rank>,…`       Resolver::resolve_multiple; R gives, per listed DID, when its handler
 //!                                                         future completes (a controllable scheduler: a handler's future is
 //!                                                         pending until every lower-ranked one has completed)
-//!   `C20 jwk <variant>`                                  did:jwk resolution; variant = ed | p256 | edalg | priv | garbage
+//!   `C20 jwk <variant>`                                  did:jwk resolution; variant = ed | p256 | edalg | edx5 (certificate members) | priv | garbage
 //! Methods 1..3 are `m1`..`m3` (handlers take a CoreDID), method 4 is `iota` (the handler takes an IotaDID: ids that are odd
 //! spell an invalid IOTA DID, so the handler's DID type refuses them), method 9 has no handler in any table.
 //! Handlers by name: 1: ok for n < 50, else fails; 2: ok for even n, else fails; 3: always ok.  A later entry of H for the
@@ -276,6 +276,7 @@ pub fn run(args: &[&str]) -> String {
       let jwk_json = match *v {
         "ed" => r#"{"kty":"OKP","crv":"Ed25519","x":"11qYAYKxCrfVS_7TyWQHOg7hcvPapiMlrwIaaPcHURo"}"#.to_string(),
         "edalg" => r#"{"kty":"OKP","crv":"Ed25519","x":"11qYAYKxCrfVS_7TyWQHOg7hcvPapiMlrwIaaPcHURo","alg":"EdDSA","kid":"k","use":"sig"}"#.to_string(),
+        "edx5" => r#"{"kty":"OKP","crv":"Ed25519","x":"11qYAYKxCrfVS_7TyWQHOg7hcvPapiMlrwIaaPcHURo","x5u":"https://example.com/cert.pem","x5t":"dGVzdA","x5c":["MIIB"],"key_ops":["verify"]}"#.to_string(),
         "p256" => r#"{"kty":"EC","crv":"P-256","x":"acbIQiuMs3i8_uszEjJ2tpTtRM4EU3yz91PH6CdH2V0","y":"_KcyLj9vWMptnmKtm46GqDz8wf74I5LKgrl2GzH3nSE"}"#.to_string(),
         "priv" => r#"{"kty":"OKP","crv":"Ed25519","x":"11qYAYKxCrfVS_7TyWQHOg7hcvPapiMlrwIaaPcHURo","d":"nWGxne_9WmC6hEr0kuwsxERJxWl7MmkZcDusAxyuf2A"}"#.to_string(),
         "garbage" => "not json".to_string(),
@@ -392,7 +393,7 @@ pub fn gen(thorough: bool, seed: u64, out: &mut impl Write) {
     writeln!(out, "C20 multi H={} D={} R={}", r.pick(&tables[1..]), ds.join(","), rk.join(",")).unwrap();
   }
   // (c) did:jwk
-  for v in ["ed", "edalg", "p256", "priv", "garbage"] {
+  for v in ["ed", "edalg", "edx5", "p256", "priv", "garbage"] {
     writeln!(out, "C20 jwk {}", v).unwrap();
   }
 }
